@@ -69,7 +69,8 @@ func checkC04(tier, replay string) int {
 	runS6Policy(r, "quick")
 	runS1Table(r, "quick")
 	runArchJumpSweep(r)
-	r.finish("scope S1 (all architectures), S3 (<=2 entries, <=2 conditions) and the long-program scope S6 are compiled and run on the exact partition extended by every AUDIT_ARCH constant of linux/audit.h, 0, own+-1, own with bit 30/31 flipped and 0xFFFFFFFF as architecture word, and by nr in {0x3FFFFFFF, 0x40000000, 0x40000000|n for every listed n, 0x7FFFFFFF, 0x80000000, 0xFFFFFFFF}, in full product with the argument cells (including those that satisfy the rules); plus a sweep of policies whose architecture-jump distance takes every value 240..270 (names-only and with conditions) on all architectures so that both encodings of that jump and the switch at 255 are executed; only foreign/x32 events are judged here; non-trivial = >= 2 distinct decisions")
+	c04Kernel(ctx)
+	r.finish("scope S1 (all architectures), S3 (<=2 entries, <=2 conditions) and the long-program scope S6 are compiled and run on the exact partition extended by every AUDIT_ARCH constant of linux/audit.h, 0, own+-1, own with bit 30/31 flipped and 0xFFFFFFFF as architecture word, and by nr in {0x3FFFFFFF, 0x40000000, 0x40000000|n for every listed n, 0x7FFFFFFF, 0x80000000, 0xFFFFFFFF}, in full product with the argument cells (including those that satisfy the rules); plus a sweep of policies whose architecture-jump distance takes every value 240..270 (names-only and with conditions) on all architectures so that both encodings of that jump and the switch at 255 are executed; only foreign/x32 events are judged here; in addition i386 system calls are issued through int $0x80 from a 64-bit child under filters loaded by the real LoadFilter (real-kernel confirmation that foreign-architecture events get the default action even when their number is listed); non-trivial = >= 2 distinct decisions")
 	ctx.Assumptions = []string{"reference: first two lines of refsem.Decide (foreign arch -> default; x86_64 nr >= 0x40000000 -> ERRNO|ENOSYS)", "partition argument of DESIGN 2.4"}
 	return ctx.Finish()
 }
